@@ -38,10 +38,17 @@ impl<const N: usize> Rib for RibbonController<N> {
     }
 }
 
+/// one instantiation per call frame: with hundreds of arms constructing buffers of up to 19 kB in one function the
+/// frame of `make` would grow to megabytes in builds that do not share stack slots (ASan, Miri)
+#[inline(never)]
+fn mk_one<const N: usize>(rate: u32, sp: f32, dr: f32, pu: f32) -> Box<dyn Rib> {
+    Box::new(RibbonController::<N>::new(rate as f32, sp, dr, pu))
+}
+
 macro_rules! mk {
     ($rate:expr, $sp:expr, $dr:expr, $pu:expr; $($r:literal),*) => {
         match $rate {
-            $( $r => Some(Box::new(RibbonController::<{ sample_rate_to_capacity($r) }>::new($r as f32, $sp, $dr, $pu)) as Box<dyn Rib>), )*
+            $( $r => Some(mk_one::<{ sample_rate_to_capacity($r) }>($r, $sp, $dr, $pu)), )*
             _ => None,
         }
     };
